@@ -1,0 +1,31 @@
+//go:build verif
+
+// Package verifhook provides named yield points used by the external
+// verification harness (build tag "verif").
+package verifhook
+
+import "sync/atomic"
+
+// Enabled reports whether hook points are active in this build.
+const Enabled = true
+
+// Handler receives every hook point; it may record the event and/or block.
+type Handler func(name string, args ...interface{})
+
+var handler atomic.Value // of Handler
+
+// Install sets the process-wide handler (nil disables).
+func Install(h Handler) {
+	if h == nil {
+		handler.Store(Handler(func(string, ...interface{}) {}))
+		return
+	}
+	handler.Store(h)
+}
+
+// Point calls the installed handler, if any.
+func Point(name string, args ...interface{}) {
+	if h, ok := handler.Load().(Handler); ok && h != nil {
+		h(name, args...)
+	}
+}
